@@ -82,7 +82,7 @@ macro_rules! c06_verify_foreign_modulus {
 }
 // @ob id=C06 also=C18 tier=quick req=1 to=900 fs=1 name=c06_verify_foreign_modulus_1 any_sizes="1,4" funcs="verify,AcceptableOptions::validate,Proof::security_level,Context::num_modulus_bits,Context::to_elements" bounds="toy AIR (1 column, 8 steps, blowup 2); claimed field modulus of 1 byte" sym="modulus bytes, caller's minimum security" enum="modulus length" desc="verify() of a proof whose context claims another field modulus returns an error (no panic, no arithmetic overflow in the security estimate or in the seed construction)"
 c06_verify_foreign_modulus!(c06_verify_foreign_modulus_1, 1);
-// @ob id=C06 also=C18 tier=quick req=1 to=900 fs=1 name=c06_verify_foreign_modulus_2 any_sizes="1,1,4" funcs="verify,AcceptableOptions::validate,Proof::security_level,Context::num_modulus_bits,Context::to_elements" bounds="toy AIR; claimed field modulus of 2 bytes (the toy field's own length), value != 257" sym="modulus bytes, caller's minimum security" enum="modulus length" desc="as above"
+// @ob id=C06 also=C18 tier=thorough req=0 to=2400 fs=1 name=c06_verify_foreign_modulus_2 any_sizes="1,1,4" funcs="verify,AcceptableOptions::validate,Proof::security_level,Context::num_modulus_bits,Context::to_elements" bounds="toy AIR; claimed field modulus of 2 bytes (the toy field's own length), value != 257" sym="modulus bytes, caller's minimum security" enum="modulus length" desc="as above"
 c06_verify_foreign_modulus!(c06_verify_foreign_modulus_2, 2);
 // @ob id=C06 also=C18 tier=quick req=1 to=900 fs=1 name=c06_verify_foreign_modulus_4 any_sizes="1,1,1,1,4" funcs="verify,AcceptableOptions::validate,Proof::security_level,Context::num_modulus_bits,Context::to_elements" bounds="toy AIR; claimed field modulus of 4 bytes (each half as long as a toy field element)" sym="modulus bytes, caller's minimum security" enum="modulus length" desc="as above"
 c06_verify_foreign_modulus!(c06_verify_foreign_modulus_4, 4);
